@@ -21,5 +21,12 @@ class EvalStack:
         assert len(self._stack) > 0, "eval stack underflow"
         return self._stack.pop()
 
+    def depth(self):
+        return len(self._stack)
+
+    def truncate(self, depth):
+        while len(self._stack) > depth:
+            self._stack.pop()
+
     def replace_top(self, value):
         self._stack[-1] = value
